@@ -46,6 +46,10 @@ pub fn any_legal_board() -> PieceBoardState {
     kani::assume(legal_board(&pb));
     pb
 }
+/// the board after the step (through the real PieceBoard::take_action, contract c02_pb_take_action)
+pub fn step_board(pb: &PieceBoardState, src: u8, d: Direction) -> PieceBoardState {
+    PieceBoard(pb.clone()).take_action(&mv(src, d)).0
+}
 pub fn same_board(a: &PieceBoardState, b: &PieceBoardState) -> bool {
     a.p1_pieces == b.p1_pieces
         && a.all_pieces == b.all_pieces
@@ -118,7 +122,7 @@ fn k_curr_player_non_frozen_pieces_modular() {
     gs.curr_player_non_frozen_pieces(&pb);
 }
 
-// @obl props=C01,C07,C12,C19 tier=quick kind=harness-contract mem=3 est=20
+// @obl props=C01,C02,C07,C12,C13,C19 tier=quick kind=harness-contract mem=3 est=20
 // @fns GameState::curr_player_non_frozen_pieces GameState::threatened_pieces supported_pieces GameState::opponent_piece_mask influenced_squares
 // @clause requires board_wf ensures forall i: bit(r,i) <=> a piece of the mover stands on i and is not frozen (no stronger enemy adjacent, or a friend adjacent)
 #[kani::proof]
@@ -135,7 +139,7 @@ fn k_curr_player_non_frozen_pieces() {
     };
     assert!(bit(r, i) == (mine && !frozen(&pb, i)), "C01: non-frozen mask = own pieces that are not frozen");
 }
-// @obl props=C01,C11,C19 tier=quick kind=harness-contract mem=2 est=5
+// @obl props=C01,C02,C11,C12,C13,C19 tier=quick kind=harness-contract mem=2 est=5
 // @fns influenced_squares shift_pieces_in_direction shift_pieces_in_opp_direction shift_in_direction can_move_in_direction
 // @clause forall i,d,x: influenced_squares / shift_pieces_in_direction / shift_pieces_in_opp_direction / can_move_in_direction agree with neighbour arithmetic on file and rank (edge masks prevent wrap-around); shift_in_direction moves a single bit to nbr(i,d) when that exists
 #[kani::proof]
@@ -155,7 +159,7 @@ fn k_shifts() {
         assert!(shift_piece_in_direction(x, 1u64 << i, &d) == if bit(x, i) { (x & !(1u64 << i)) | (1u64 << j) } else { x }, "shift_piece_in_direction");
     }
 }
-// @obl props=C01,C09,C10,C19 tier=quick kind=harness-contract mem=2 est=5
+// @obl props=C01,C02,C09,C10,C12,C13,C19 tier=quick kind=harness-contract mem=2 est=5
 // @fns GameState::curr_player_piece_mask GameState::opponent_piece_mask GameState::invalid_rabbit_moves GameState::lesser_pieces GameState::is_their_piece piece_type_at_bit PieceBoardState::piece_type_at_square
 // @clause requires board_wf ensures the masks equal their at()-based definitions per square; piece_type_at_bit/at_square == type of at(pb,i) (fall-through Cat arm only for cats); is_their_piece <=> owner != mover
 #[kani::proof]
@@ -219,7 +223,7 @@ fn c04_goal_and_elimination() {
     assert!(gs.rabbit_at_goal(&pb) == goal_spec(&pb, side), "C04: goal result (last mover's rabbit first, then the mover's)");
     assert!(gs.lost_all_rabbits(&pb) == elimination_spec(&pb, side), "C04: elimination result (mover without rabbits loses first)");
 }
-// @obl props=C01,C02,C10,C19 tier=quick kind=harness-contract mem=3 est=20
+// @obl props=C01,C02,C10,C12,C13,C19 tier=quick kind=harness-contract mem=3 est=20
 // @fns supported_pieces both_player_supported_pieces both_player_unsupported_piece_bits GameState::threatened_pieces
 // @clause forall words/boards, square i: supported_pieces(x) has bit i <=> i in x and an orthogonal neighbour of i (no wrap-around) in x; both_player_(un)supported: per owner; threatened_pieces == threatened_spec
 #[kani::proof]
@@ -408,7 +412,7 @@ pub fn seam_offers(v: &[Action], base: usize, i: u8, d: Direction) -> bool {
 // ===========================================================================
 // C01 generators (layer 3)
 // ===========================================================================
-// @obl props=C01,C04,C07,C19 tier=quick kind=harness-contract mem=4 est=60
+// @obl props=C01,C02,C04,C07,C12,C13,C19 tier=quick kind=harness-contract mem=4 est=60
 // @fns GameState::extend_with_valid_curr_player_piece_moves GameState::curr_player_non_frozen_pieces can_move_in_direction GameState::invalid_rabbit_moves
 // @clause requires board_wf. ensures (seam abstracted, A1): the seam is called once per direction with a non-empty mask, in Up,Right,Down,Left order, one Move(REP,d) appended per call, nothing else; forall (i,d): bit(mask_d,i) <=> simple_step(pb,side,i,d) = unfrozen piece of the mover on i, nbr(i,d) empty, not a rabbit moving backward
 #[kani::proof]
@@ -427,7 +431,7 @@ fn c01_gen_steps() {
     assert!(seam_list_ok(&v, 0, rep), "C01: one Move(REP,d) per non-empty direction mask, directions ascending");
     assert!(seam_offers(&v, 0, i, d) == simple_step(&pb, side, i, d), "C01: offered single steps == legal single steps");
 }
-// @obl props=C01,C04,C07,C19 tier=quick kind=harness-contract mem=5 est=90
+// @obl props=C01,C02,C04,C07,C12,C13,C19 tier=quick kind=harness-contract mem=5 est=90
 // @fns GameState::extend_with_push_piece_actions GameState::curr_player_non_frozen_pieces GameState::threatened_pieces can_move_in_direction PushPullState::can_push
 // @clause requires board_wf, wf_status, step in 0..3 (all four, symbolic). ensures (seam abstracted): nothing is produced when a push is pending or step == 3; otherwise forall (i,d): bit(mask_d,i) <=> push_start = enemy piece on i, nbr(i,d) empty, an unfrozen strictly stronger piece of the mover adjacent to i
 #[kani::proof]
@@ -497,7 +501,7 @@ pub fn all_moves(v: &[Action]) -> bool {
     r
 }
 
-// @obl props=C01,C07,C19 tier=quick kind=harness-contract mem=10 est=60 timeout=1500
+// @obl props=C01,C02,C07,C12,C13,C19 tier=quick kind=harness-contract mem=10 est=60 timeout=1500
 // @fns GameState::extend_with_pull_piece_actions GameState::lesser_pieces GameState::opponent_piece_mask shift_pieces_in_direction shift_pieces_in_opp_direction Square::from_bit_board PushPullState::as_possible_pull
 // @clause requires board_wf, wf_status. ensures (real Vec, <= 4 entries): started from an empty list the result contains Move(i,d) <=> status is PossiblePull(psq,pt) and pull_complete(psq,pt,i,d) = strictly weaker enemy on i steps into the vacated square; no duplicates; only Moves; at most 4
 #[kani::proof]
@@ -522,7 +526,7 @@ fn c01_gen_pull() {
     assert!(has_move_in(&v, i, d) == spec, "C01: offered pull completions == legal pull completions");
     assert!(count_move_in(&v, i, d) <= 1, "C01: no pull completion listed twice");
 }
-// @obl props=C01,C19 tier=quick kind=harness-contract mem=10 est=60 timeout=1500
+// @obl props=C01,C02,C12,C13,C19 tier=quick kind=harness-contract mem=10 est=60 timeout=1500
 // @fns GameState::extend_with_pull_piece_actions
 // @clause de-duplication: when the list already holds one Move (e.g. the same step offered as a push start) the pull generator appends a completion only if it is not that action, keeps the prefix, and never duplicates
 #[kani::proof]
@@ -558,7 +562,7 @@ fn c01_gen_pull_dedup() {
     assert!((cnt >= 1) == (spec || (pi == i && pd == d)), "C01: pull completion present iff legal (or already listed)");
     assert!(cnt <= 1, "C01: no action listed twice after de-duplication");
 }
-// @obl props=C01,C07,C12,C19 tier=quick kind=harness-contract mem=5 est=160
+// @obl props=C01,C02,C07,C12,C13,C19 tier=quick kind=harness-contract mem=5 est=160
 // @fns GameState::must_complete_push_actions GameState::curr_player_non_frozen_pieces shift_pieces_in_opp_direction piece_type_at_bit PushPullState::unwrap_must_complete_push Square::from_bit_board
 // @clause requires board_wf, status == MustCompletePush(psq,vt) with wf_status. ensures (real Vec): result contains Move(i,d) <=> push_complete = unfrozen piece of the mover on i, strictly stronger than the pushed piece, nbr(i,d) == psq (empty); 1 <= len <= 4 (continuability); no duplicates; no panic (unwrap_must_complete_push, piece_type_at_bit on an occupied bit)
 #[kani::proof]
@@ -1323,7 +1327,7 @@ fn no_dups(a: &[Action]) -> bool {
     ok
 }
 
-// @obl props=C01,C06,C07,C19 tier=quick kind=harness-contract mem=8 est=200 timeout=1800
+// @obl props=C01,C02,C06,C07,C12,C13,C19 tier=quick kind=harness-contract mem=8 est=200 timeout=1800
 // @fns GameState::valid_actions_ GameState::valid_actions_no_rep GameState::valid_actions
 // @clause assembly, fully modular: the four generators, can_pass and remove_passing_like_actions are replaced by abstractions of their contracts (0..1 symbolic action each, disjointness as proved; the filter abstraction appends a marker to the list it is given); check_repititions symbolic, all statuses: result == completions when a push is pending, else push starts ++ pull completions not already listed ++ own steps ++ [Pass iff can_pass(check_repititions)], in this order, followed by the filter marker exactly when check_repititions (filter invoked once, last, on the whole list); no action listed twice
 #[kani::proof]
